@@ -6,5 +6,108 @@ from units import round_common as R
 
 def build(S: Sources) -> Unit:
     errs = []
-    return Unit(property_id="C01", verus=[], kani=R.round_kani(S, errs, "C01"), build_errors=errs,
+    vfiles = guarded(lambda: count_input_files(S), errs, [])
+    return Unit(property_id="C01", verus=vfiles, kani=R.round_kani(S, errs, "C01"), build_errors=errs,
                 undecided_clauses=R.ROUND_UNDECIDED + ["sample_count / number of rounds: see C03"])
+
+
+# --------------------------------------------------------------------------- the per-input counter closure (Verus)
+BENCH = "src/benchmark/mod.rs"
+ANYC = "src/counter/any_counter.rs"
+
+COUNT_SPEC = r"""
+pub type MaxCountUInt = u64;      // condtype::num::Usize64 on a 64-bit target
+#[verifier::external_body] pub struct CounterCollection { _p: core::marker::PhantomData<()> }
+pub open spec fn kind_index(k: KnownCounterKind) -> int { match k { KnownCounterKind::Bytes => 0, KnownCounterKind::Chars => 1, KnownCounterKind::Cycles => 2, KnownCounterKind::Items => 3 } }
+// what the input counter of a kind says about an input (None: no input counter of that kind is registered)
+pub uninterp spec fn input_count<I>(c: &CounterCollection, k: KnownCounterKind, input: &I) -> Option<MaxCountUInt>;
+// the total after adding a count; what happens beyond u128::MAX (2^64 inputs of 2^64 each) is not C01's business
+pub open spec fn added(before: u128, c: u128, after: u128) -> bool { before + c <= u128::MAX ==> after == before + c }
+pub open spec fn all_kinds() -> Seq<KnownCounterKind> { seq![KnownCounterKind::Bytes, KnownCounterKind::Chars, KnownCounterKind::Cycles, KnownCounterKind::Items] }
+impl CounterCollection {
+    // stand-in for CounterCollection::get_input_count (boxed user closure behind a type-erased pointer): ASSUMED to
+    // show the input to the counter of that kind, if one is registered; every call is logged
+    #[verifier::external_body]
+    pub fn get_input_count<I>(&self, counter_kind: KnownCounterKind, input: &I, Tracked(log): Tracked<&mut Seq<KnownCounterKind>>) -> (r: Option<MaxCountUInt>)
+        ensures r == input_count(self, counter_kind, input), *final(log) == old(log).push(counter_kind),
+    { unimplemented!() }
+}
+"""
+
+COUNT_CLAUSES = r"""
+    requires old(log).len() == 0,
+    ensures
+        // the value is shown exactly once to the input counter of every kind ...
+        *final(log) =~= all_kinds(),
+        // ... and what each says is added (saturating) to that kind's total of the sample, nothing else changes
+        forall |k: KnownCounterKind| #![trigger kind_index(k)] (match input_count(counters, k, input) {
+            Some(c) => added(old(counter_totals)@[kind_index(k)], c as u128, final(counter_totals)@[kind_index(k)]), None => final(counter_totals)@[kind_index(k)] == old(counter_totals)@[kind_index(k)] }),
+"""
+
+COUNT_LOOP = """let all = KnownCounterKind::ALL; let mut ki: usize = 0;
+    proof { assert(all@ =~= all_kinds()); }
+    while ki < 4
+        invariant 0 <= ki <= 4, all@ =~= all_kinds(),
+            *log =~= all@.subrange(0, ki as int),
+            forall |j: int| #![trigger counter_totals@[j]] 0 <= j < ki ==> (match input_count(counters, all@[j], input) {
+                Some(c) => added(old(counter_totals)@[j], c as u128, counter_totals@[j]), None => counter_totals@[j] == old(counter_totals)@[j] }),
+            forall |j: int| ki <= j < 4 ==> counter_totals@[j] == old(counter_totals)@[j],
+        decreases 4 - ki,
+    {
+        let counter_kind = all[ki]; ki = ki + 1;"""
+
+
+def count_input_files(S: Sources):
+    """The closure `count_input` of bench_loop_threaded (called by the recorder once per generated input), outlined."""
+    import re
+    from lib import rsx
+    from lib.vrun import Section
+    b = S(BENCH); ac = S(ANYC)
+    secs = [code_item(ac, ac.find_item("enum", "KnownCounterKind"), keep_attrs=("derive",),
+                      subst=[(r"#\[derive\([^\]]*\)\]", "#[derive(Clone, Copy, PartialEq, Eq)]", 1)])]
+    c_count = ac.find_item("const", "COUNT"); c_all = ac.find_item("const", "ALL")
+    if "Self::Bytes" not in c_all.text() or "usize" not in c_count.text():
+        raise rsx.LostAnchor(f"{ANYC}: KnownCounterKind::COUNT / ALL not found")
+    secs += wrap_impl("impl KnownCounterKind", [code_item(ac, c_count), code_item(ac, c_all)])
+    secs.append(ghost("C01 input-counter spec and stand-in", COUNT_SPEC, kind="trusted"))
+    f = b.find_fn("bench_loop_threaded", impl=r"impl<'a> BenchContext<'a>")
+    body = f.body_text()
+    m = re.search(r"let\s+mut\s+count_input\s*=\s*\|\s*input\s*:\s*&\s*I\s*\|\s*\{", body)
+    if not m:
+        raise rsx.LostAnchor(f"{BENCH}: bench_loop_threaded: closure `let mut count_input = |input: &I| {{` not found")
+    close = rsx._match(body, m.end() - 1)
+    txt = body[m.end():close]
+    line = b.line_of(f.body_open + m.start())
+    dropped = ["closure `|input: &I| { .. }` bound to count_input outlined as a function of its parameter and its two captured variables (self.counters, counter_totals)"]
+    subs = [
+        # Verus cannot iterate an array by value: index loop over the same array (header only)
+        (r"for\s+counter_kind\s+in\s+KnownCounterKind\s*::\s*ALL\s*\{", COUNT_LOOP, 1),
+        (r"self\s*\.\s*counters\s*\.\s*get_input_count\s*\(\s*([^()]*?)\s*,?\s*\)", r"counters.get_input_count(\1, Tracked(log))", "any"),
+    ]
+    for pat, rep, cnt in subs:
+        txt, k = re.subn(pat, lambda mm: mm.expand(rep) if "\\1" in rep else rep, txt)
+        if (cnt == "any" and k < 1) or (cnt != "any" and k != cnt):
+            raise rsx.LostAnchor(f"{BENCH}: count_input closure: subst {pat!r} matched {k} != {cnt}")
+        dropped.append(f"subst {pat!r} ({k}x)")
+    # proof hints: end of the loop body (structural: the closing brace of the loop) and after the loop
+    lm = re.search(r"while ki < 4", txt)
+    lo = txt.index("{", txt.index("decreases 4 - ki"))
+    lc = rsx._match(txt, lo)
+    txt = (txt[:lc] + "\nproof { assert(all@.subrange(0, ki as int) =~= all@.subrange(0, ki - 1).push(all@[ki - 1])); }\n" + txt[lc:lc + 1] + """
+    proof {
+        assert forall |k: KnownCounterKind| #![trigger kind_index(k)] (match input_count(counters, k, input) {
+            Some(c) => added(old(counter_totals)@[kind_index(k)], c as u128, counter_totals@[kind_index(k)]), None => counter_totals@[kind_index(k)] == old(counter_totals)@[kind_index(k)] }) by {
+            assert(all@[kind_index(k)] == k);
+        }
+    }
+""" + txt[lc + 1:])
+    core = Section(name="BenchContext::bench_loop_threaded (closure count_input, outlined)", kind="code", origin=f"{BENCH}:{line}",
+                   text="pub fn count_input_body<I>(counters: &CounterCollection, input: &I, counter_totals: &mut [u128; 4], Tracked(log): Tracked<&mut Seq<KnownCounterKind>>)\n"
+                        + COUNT_CLAUSES + "{\n" + txt + "\n}")
+    core.dropped = dropped
+    secs.append(core)
+    import copy
+    csecs = copy.deepcopy(secs) + [ghost("canaries", """
+pub fn canary_count_input<I>(c: &CounterCollection, i: &I, t: &mut [u128; 4], Tracked(log): Tracked<&mut Seq<KnownCounterKind>>) requires old(log).len() == 0 { count_input_body(c, i, t, Tracked(log)); assert(false); }
+""", kind="lemma")]
+    return [VerusFile("c01_count_input", secs), VerusFile("c01_count_input_canary", csecs, expect_fail=True)]
